@@ -489,3 +489,14 @@ gen_builder!(
   finalize=finalize, share=share, flat=flat_none, tt=throttle_time_closure, timer=timer_none,
   stash=StashL
 );
+
+// the library's own `impl Scheduler for futures::executor::LocalSpawner` (real LocalPool)
+gen_builder!(
+  localpool, BoxOp<'static, V, E>, Subject<'static, V, E>, Subscriber, BoxObserver<'static, V, E>,
+  futures::executor::LocalSpawner,
+  merge=merge, zip=zip, combine=combine_latest, wlf=with_latest_from,
+  take_until=take_until, skip_until=skip_until, sample=sample,
+  delay=delay, delay_at=delay_at, observe_on=observe_on,
+  finalize=finalize, share=share, flat=flat_local, tt=throttle_time_real, timer=timer_real,
+  stash=StashL
+);
